@@ -2,7 +2,7 @@
 //
 // case: {"id":..,"text":"<bytes; \u00XX = one byte>","which":["sqftok","sqfparse","cfgtok","cfgparse","pp",
 //        "compile","preprocess__","configparse__"],"toks":bool,"root":"<dir with include files>","file":"case.sqf",
-//        "budget_ms":n}
+//        "budget_ms":n,"ops":"full|basic","once":bool}
 //
 // For every requested front end, in the given order:
 //   {"e":"Begin","fe":..}                      written BEFORE the front end runs: a Crash event appended by main.cpp
@@ -286,6 +286,7 @@ static void cmd_front(const J& c)
     const std::string text = c.str("text");
     const bool want_toks = c.boolean("toks", false);
     const long long budget = c.num("budget_ms", 2000);
+    const bool once = c.boolean("once", false);       // timing measurements: a single run ("same" is then vacuous)
     if (!c.has("which")) { return; }
     for (auto& w : c.at("which").a)
     {
@@ -296,7 +297,7 @@ static void cmd_front(const J& c)
         arm(budget);
         auto t0 = std::chrono::steady_clock::now();
         obs o1 = run_once(c, fe, text, want_toks);
-        obs o2 = run_once(c, fe, text, false);
+        obs o2 = once ? o1 : run_once(c, fe, text, false);
         auto ms = std::chrono::duration_cast<std::chrono::milliseconds>(std::chrono::steady_clock::now() - t0).count();
         arm(0);
         J o = ev("Obs");
